@@ -101,7 +101,7 @@ def main():
             "engine": c["engine"],
             "level_claimed": {"category": c["cat"], "text": c["text"], "design_ref": c["ref"]},
             "level_note": c["note"],
-            "technique": c["technique"],
+            "technique": c["technique"] + ("; plus stateless exploration, under a cooperative scheduler with a scheduling point before every statement of the library (preemption bound 1 / 2), of the interleavings of operation pairs and handler pairs on disjoint objects, each side compared with the sequential run" if pid in ("C05","C06","C09","C10","C11","C12","C14","C16","C17","C18","C20") else ""),
         })
     props = [json.loads(l)["id"] for l in open(os.path.join(ROOT, "properties.jsonl"))]
     na = [x for x in NOT_APPLICABLE]
